@@ -62,6 +62,22 @@ func Completes(d time.Duration, f func()) bool {
 	}
 }
 
+// CompletesCh is Completes that also hands back the channel closed when f returns, for callers that want to know
+// whether f finishes later (e.g. once whatever it was waiting for has been released).
+func CompletesCh(d time.Duration, f func()) (bool, <-chan struct{}) {
+	done := make(chan struct{})
+	go func() {
+		defer close(done)
+		f()
+	}()
+	select {
+	case <-done:
+		return true, done
+	case <-time.After(d):
+		return false, done
+	}
+}
+
 // BlockedAnywhere is BlockedOnMutex for goroutines that wait in any way (mutex, channel, select, sleep, condition
 // variable, WaitGroup) below a frame containing one of the given substrings.
 func BlockedAnywhere(dump string, under ...string) string {
